@@ -62,11 +62,13 @@ def judge(case):
     shells = case["shells"]
     # the original system's points in a caller's array form (layout, integer grid, float32 grid); the moved points are plain float64
     env, form = quant.with_point_form(dict(case["env"]), int(case_hash({"s": case["shells"], "p": case["env"]["points"]}), 16))
+    env = quant.with_screen_band(env, shells, int(case_hash(shells), 16) >> 7)
     Q, exact = motion(case)
     t = np.array(case["t"], dtype=float)
     det = float(np.round(np.linalg.det(Q)))
     v = Verdict(classes=["signed-permutation" if exact else "general-orthogonal", "det%+d" % det,
-                         "translated" if np.any(t != 0) else "origin-fixed", "points-" + form])
+                         "translated" if np.any(t != 0) else "origin-fixed", "points-" + form]
+                + (["screening-band"] if env.get("tol_screen_band") else []))
     moved = [dict(s, coord=mv([s["coord"]], Q, t)[0]) for s in shells]
     env2 = dict(env, points_form=None, points=mv(env["points"], Q, t), nuc_coords=mv(env["nuc_coords"], Q, t), origin=mv([env["origin"]], Q, t)[0])
     changed = any(sum(abs(a - b) > 1e-12 for a, b in zip(s["coord"], m["coord"])) >= 2 for s, m in zip(shells, moved))
@@ -199,6 +201,23 @@ def judge(case):
         nat = mag.reshape(mag.shape + (1,) * (a1.ndim - 1)) * np.ones(a1.shape) * 0.1
         if rel(q.name, a0, a1, mats, nat=nat, tol=q.tol):
             return v
+    # the same with a transformation: orbitals W f of the original system are the orbitals (W D) f' of the moved one (a fixed
+    # square, non-symmetric W; the density matrix then refers to the orbitals and is the same on both sides)
+    n = G.shape[0]
+    W = np.eye(n) + 0.4 * np.sin(np.add.outer(1.7 * np.arange(n), 0.9 * np.arange(n)) + 0.3)
+    W1 = W @ D
+    Geff1 = W1.T @ G @ W1
+    for q in quant.DENSITY:
+        if q.name == "evaluate_deriv_density":
+            continue
+        a0 = lib(q, b0, env, W, G)
+        a1 = lib(q, b1, env2, W1, G)
+        mag = sc.mag(q, Geff1)
+        mats = [(QT, ax) for ax in range(1, a1.ndim)]
+        nat = mag.reshape(mag.shape + (1,) * (a1.ndim - 1)) * np.ones(a1.shape) * 0.1
+        if rel(q.name + " (with transform)", a0, a1, mats, nat=nat, tol=q.tol):
+            return v
+    v.classes.append("density-with-transform")
     return v
 
 
